@@ -50,6 +50,10 @@ def cases(tier, seed):
     for form in GM_FORMS:
         for t in (0, 1):
             out.append(('gm', form, t))
+    # the same forms on a model that was given a random_state (the seed must not change how columns are modelled)
+    for form in GM_FORMS:
+        if form != 'dict-reused-after-fallback':
+            out.append(('gm-seeded', form, 0))
     return out
 
 
@@ -82,7 +86,7 @@ def run_case(case):
     r = engine.new_result()
     r.state(case)
     r.nontriv()
-    if case[0] == 'gm':
+    if case[0] in ('gm', 'gm-seeded'):
         return _gm(r, case)
     import copulas.univariate as U
     from mc.boom import Boom, BoomCdf
@@ -128,6 +132,13 @@ def run_case(case):
 
     P, B = U.ParametricType, U.BoundedType
     check('default', U.Univariate(), ALL8)
+    # refit history: the same wrapper was fitted on quite different data before
+    used = U.Univariate()
+    try:
+        used.fit(uni.dataset(('uniform', -3.0, 7.0, 40)) if dspec[0] != 'uniform' else uni.dataset(('gamma2', 0.0, 1.0, 40)))
+    except Exception:
+        pass
+    check('default-refit', used, ALL8)
     check('parametric', U.Univariate(parametric=P.PARAMETRIC), [c for c in ALL8 if PARAM[c]])
     check('non-parametric', U.Univariate(parametric=P.NON_PARAMETRIC), [c for c in ALL8 if not PARAM[c]])
     for b in ('BOUNDED', 'SEMI_BOUNDED', 'UNBOUNDED'):
@@ -236,8 +247,9 @@ def _gm(r, case):
         'boom-instance': Boom(),
         'boom-dict': {c1: Boom, c2: U.UniformUnivariate},
     }[form]
-    gm = GaussianMultivariate() if dist is None else GaussianMultivariate(distribution=dist)
-    tag = f'GaussianMultivariate(distribution={form}) on table {t}'
+    kw = {'random_state': 5} if case[0] == 'gm-seeded' else {}
+    gm = GaussianMultivariate(**kw) if dist is None else GaussianMultivariate(distribution=dist, **kw)
+    tag = f'GaussianMultivariate(distribution={form}{", random_state=5" if kw else ""}) on table {t}'
     r.tr()
     r.ev()
     try:
